@@ -69,7 +69,7 @@ def run(ctx, chk):
         if ev.data["name"] != "append":
             continue
         loops = [c[1] for c in ev.pc if c[0] == "inloop"]
-        conds = [c for c in ev.pc if c[0] != "inloop"]
+        conds = [c for c in ev.pc if c[0] not in ("inloop", "fact")]
         iters = [cn.show(ip.loops[l]["iter"]) for l in loops]
         obj = ev.data["args"][0] if ev.data["args"] else C(None)
         cls = obj[1] if obj[0] == "new" else cn.show(obj)
@@ -195,7 +195,7 @@ def check_maps(ctx, chk):
             want["name"] = f"{D}[0]"
             idx = cn.show(ev.data["idx"])
             base = cn.show(ev.data["base"])
-            cond = cn.conj(tuple(c for c in ev.pc if c[0] != "inloop"))
+            cond = cn.conj(tuple(c for c in ev.pc if c[0] not in ("inloop", "fact")))
             ok = got == want and idx == f"{D}[1]['os']" and f"[{D}[1]['{key1}']]" in base
             detail = f"stored under [{base[-60:]}][{idx}] fields {got} when {f_show(cond)[:200]}"
         chk.ob("C11.definition", f"Scenario.{prop}: every field copied from the definition, indexed "
@@ -314,7 +314,7 @@ def check_mask(ctx, chk):
         loops = [c[1] for c in ev.pc if c[0] == "inloop"]
         it = cn.show(ip.loops[loops[0]]["iter"]) if loops else "?"
         idx = cn.show(ev.data["idx"])
-        conds = [c for c in ev.pc if c[0] not in ("inloop",) and c[0] != "istype"
+        conds = [c for c in ev.pc if c[0] not in ("inloop", "fact") and c[0] != "istype"
                  and not (c[0] == "call" and c[1] == "builtins.isinstance")]
         cond = cn.conj(tuple(conds))
         I = "each(range(self.action_space.n))"
